@@ -244,9 +244,13 @@ def run(ctx: Ctx) -> None:
     _closed_forms(ctx)
     M = prog.cls('mdcev.mdcev', 'Mdcev')
     init = M.methods['__init__']
-    ok = (has(init.node, 'self.index_to_key = [_K for _K in self.alternatives]') or has(init.node, 'self.index_to_key = list(self.alternatives)')) \
-        and has(init.node, 'self.key_to_index = {_K: _I for _I, _K in enumerate(self.index_to_key)}')
-    ctx.add('C18.R1', 'Mdcev.__init__:tables', ok, init, 'key_to_index is built by enumerating index_to_key: the two tables are inverse of each other' if ok else 'key_to_index is no longer the inverse of index_to_key', 'tables')
+    from ..pattern import find as _find
+
+    bk = _find(init.node, 'self.key_to_index = {_K: _I for _I, _K in enumerate(__SRC)}')
+    ok = None
+    if bk is not None and (has(init.node, 'self.index_to_key = [_K for _K in self.alternatives]') or has(init.node, 'self.index_to_key = list(self.alternatives)')):
+        ok = unparse(bk['__SRC'][1]) == 'self.index_to_key'
+    ctx.add('C18.R1', 'Mdcev.__init__:tables', ok, init, 'key_to_index is built by enumerating index_to_key: the two tables are inverse of each other' if ok else (f'key_to_index enumerates {unparse(bk["__SRC"][1])}, not index_to_key: the two tables are inverse of each other only when both orders happen to coincide' if ok is False else 'shape not recognised - expected: index_to_key = list of the alternatives, key_to_index = {key: position} over it'), 'tables', positive=ok is False)
     og = M.methods['outside_good_index']
     ok = 'return self.key_to_index[self.outside_good_key]' in unparse(og.node)
     ctx.add('C18.R1', 'Mdcev.outside_good_index', ok, og, 'position of the outside good = key_to_index[its label]' if ok else 'outside_good_index changed', 'og')
